@@ -679,6 +679,25 @@ def r4_tournament(ctx, repo):
     table = {}
     bad = unsure = None
     client = None
+    # path rule (independent of the table below): with equal front numbers a candidate may only be returned after the
+    # dominance comparator has been consulted
+    cand_vars = {access_path(s_.targets[0]) for s_ in stmts_of(fn) if isinstance(s_, ast.Assign) and isinstance(s_.value, ast.Call)
+                 and (access_path(s_.value.func) or "") in ("random.sample", "sample", "random.choices", "choices")}
+    for p_ in Enumerator(loop_counts=(0, 1, 2)).function_paths(fn):
+        if p_.outcome != "return" or p_.node is None or p_.node.value is None:
+            continue
+        fg = [e for e in p_.events if e.kind == "guard" and isinstance(e.node, ast.Compare) and len(e.node.ops) == 1
+              and isinstance(e.node.ops[0], (ast.Lt, ast.Gt)) and text(e.node).count("front_number") == 2]
+        if len(fg) < 2 or any(e.val for e in fg):
+            continue
+        compared = any(e.kind in ("stmt", "return") and any((access_path(c.func) or "").endswith(".compare") for c in calls_in(e.node)) for e in p_.events)
+        rv = PathEnv(fn, p_.events).expand_at(p_.node.value, len(p_.events) - 1)
+        from_cands = any(isinstance(n_, ast.Name) and n_.id in cand_vars for n_ in ast.walk(rv)) or \
+            any(isinstance(n_, ast.Name) and n_.id in cand_vars for n_ in ast.walk(p_.node.value))
+        if not compared and from_cands:
+            ctx.violated("R4", C, where(mod, p_.node), "with equal front numbers a candidate is returned without consulting the dominance comparator (path [%s]): "
+                         "the dominated candidate of a pair can win" % p_.describe(6), key="table")
+            return
     for sf in "<=>":
         client = TourClient(fn, pop, selfn)
         interp = Interp(Evaluator(hooks=client), client)
